@@ -5,11 +5,11 @@ CHECKS['C18'] = dict(
               'with values at and beyond every numeric and length boundary, offered to the real API parsers, the real announce callbacks and Configuration.reload(); every accepted '
               'definition encoded by the real UPDATE generator under 16 negotiated sessions and decoded by an independent RFC reference decoder',
     text='9 grammars (static route IPv4 / IPv6, `attributes ... nlri`, flow, vpls, `announce ipv4 unicast / nlri-mpls / mpls-vpn`, `announce ipv6 unicast`) with a valid base definition each and '
-         '93-361 deviations per grammar (about 2200 in all): for every keyword the values -1, 0, 1, max-1, max, max+1, 2^16-1, 2^16, 2^32-1, 2^32, 2^64, non-numeric, missing value, hexadecimal form; '
+         '92-361 deviations per grammar (2228 in all): for every keyword the values -1, 0, 1, max-1, max, max+1, 2^16-1, 2^16, 2^32-1, 2^32, 2^64, non-numeric, missing value, hexadecimal form; '
          'list lengths 0, 1, 2, 255, 256, 1000 and larger than a 4096-octet / any message; masks 0..129 for both address families; label 0..2^20 and stacks up to the NLRI length octet; every RD form '
          'with the number at both ends and beyond; keyword given twice; unknown keyword; unclosed / mismatched / stray brackets, stray terminators, quotes, comments. Each deviation alone through three '
          'entry points (API.api_route/api_attributes/api_flow/api_vpls/api_announce_v4/v6 as the callbacks call them; API.process -> dispatch -> real announce_* callback with a stub reactor, reply '
-         'observed; a full neighbor configuration file through Configuration.reload(), flat and nested forms), and every pair of deviations on different keywords (quick: 3 grammars on the api path, '
+         'observed; a full neighbor configuration file through Configuration.reload(), flat and nested forms), and every pair of deviations on different keywords (quick: static route and flow on the api path, '
          'thorough: 11 grammar/path/form combinations, both textual orders for the static route). Oracle: refused with a message (located, for a configuration) or accepted; no exception other than the '
          'ValueError/IndexError the callbacks answer `error` for by name, no endless loop (CPU-time alarm); an accepted definition encodes under every session without raising and the decoded NLRI, '
          'next hop and attributes equal the values computed from the text; values the wire format holds are accepted, values it cannot hold are refused. Plus all 81 ordered pairs of 9 route shapes '
